@@ -261,6 +261,31 @@ def m_trait_not_educed(rng, td):
     return "trait-not-educed/field"
 
 
+# (educed traits, partner that is NOT educed, attributes written under the partner's name)
+ALIAS_PAIRS = [
+    (["PartialEq"], "Eq", ["Eq(ignore)", "Eq = false", "Eq(method(%seq_mod2))" % RT, "Eq(ignore = false)"]),
+    (["PartialOrd", "PartialEq"], "Ord", ["Ord(ignore)", "Ord(rank = 3)", "Ord = false", "Ord(method(%spcmp_rev))" % RT]),
+    (["Ord", "Eq", "PartialEq"], "PartialOrd", ["PartialOrd(ignore)", "PartialOrd(rank = 3)", "PartialOrd = false"]),
+    (["Clone"], "Copy", ["Copy"]),
+    (["Eq", "PartialEq"], "PartialOrd", ["PartialOrd(ignore)"]),
+]
+
+
+def m_alias_not_educed(rng, td, alias):
+    educed, partner, attrs = alias
+    if partner in td.traits:
+        return None
+    v, f = pick_field(rng, td)
+    if f is None:
+        return None
+    # the field's own attribute for the educed trait goes, so that the partner's is the only one of its family
+    for k in list(f.sem):
+        if k in educed or k == partner:
+            f.sem.pop(k)
+    f.sem.setdefault("_raw", []).append(rng.choice(attrs))
+    return "trait-not-educed/partner-name/%s" % partner
+
+
 def m_unknown_trait(rng, td):
     attr = rng.choice(["Foo", "Foo(ignore)", "debug", "Display", "Serialize = false", "Partialeq(ignore)",
                        "std::fmt::Debug", "Debug::Foo(ignore)"])
@@ -310,6 +335,8 @@ WRONG_PARAMS = {
     ("type", "Deref"): ["Deref(ignore)", "Deref = 1"],
     ("type", "PartialOrd"): ["PartialOrd(rank = 1)", "PartialOrd = false"],
     ("type", "Ord"): ["Ord(rank = 1)", "Ord(ignore)"],
+    # with Clone educed the Copy impl is written by the Clone handler with Clone's where-clause: Copy takes no parameter
+    ("type", "Copy"): ["Copy(bound(*))", "Copy(bound = false)", "Copy(bound(u8: ::core::marker::Copy))", "Copy(bound = \"u8: Copy\")"],
 }
 
 
@@ -320,6 +347,8 @@ def m_wrong_param(rng, td):
         return None
     t = rng.choice(ts)
     attr = rng.choice(WRONG_PARAMS[(level, t)])
+    if level == "type" and t == "Copy" and "Clone" not in td.traits:
+        return None
     if level == "type":
         # replace the type-level entry of t
         def hook(lv, ob, lst):
@@ -488,9 +517,14 @@ def gen_case(seed, k):
         ts = G.random_trait_set(rng)
         if rng.random() < 0.5:
             ts = G.normalise_traits(ts + rng.sample(["Debug", "Deref", "DerefMut", "Into", "Default", "Ord"], 2))
-        base = G.random_type(rng, ts, G.Opts(bounds=False))
+        alias = None
+        if rng.random() < 0.06:
+            # exactly one trait of a coupled pair is educed; the partner's name then carries a field attribute
+            alias = rng.choice(ALIAS_PAIRS)
+            ts = list(alias[0])
+        base = G.random_type(rng, ts, G.Opts(bounds=False, p_attr=0.2) if alias else G.Opts(bounds=False))
         td = copy.deepcopy(base)
-        m = rng.choice(MUTATORS)
+        m = rng.choice(MUTATORS) if alias is None else (lambda rng, td: m_alias_not_educed(rng, td, alias))
         r = m(rng, td)
         if r is None:
             return None
